@@ -359,6 +359,8 @@ def run(rep, tier):
         rep.call(step_count, rep, prog, "C13.step-count")
         from . import c14
         rep.call(c14.band_start, rep, prog, "C13.band-start")
+        # source and destination are split separately and zipped: all splits distribute alike
+        rep.call(c14.sizes, rep, prog, "C13.split-siblings", siblings=True)
         rep.call(no_address_dependence, rep, prog, "C13.no-address-dependence")
         rep.call(loadwidth.guard_adequacy, rep, prog, "C13.row-end", loadwidth.FLOOR.get(cfg, 50))
         from ..engines import row_coverage
